@@ -92,10 +92,31 @@ fn into_iri<'a>(s: &'a str, mut prefix: &str) -> Cow<'a, str> {
     }
 }
 
+/// Escapes a string for use inside a JSON string literal (the surrounding quotes are not included)
+fn json_escape(s: &str) -> String {
+    let quoted = serde_json::to_string(s).expect("serialising a string to JSON can not fail");
+    quoted[1..quoted.len() - 1].to_string()
+}
+
 fn value_to_json(value: &DataValue) -> String {
     match value {
-        DataValue::String(s) => format!("\"{}\"", s.replace("\n", "\\n").replace("\"", "\\\"")),
-        x => x.to_string(),
+        DataValue::String(s) => format!("\"{}\"", json_escape(s)),
+        DataValue::Null => "null".to_string(),
+        DataValue::Bool(v) => v.to_string(),
+        DataValue::Int(v) => v.to_string(),
+        DataValue::Float(v) => {
+            if v.is_finite() {
+                v.to_string()
+            } else {
+                //JSON has no representation for NaN and infinity
+                "null".to_string()
+            }
+        }
+        DataValue::Datetime(v) => format!("\"{}\"", v.to_rfc3339()),
+        DataValue::List(v) => {
+            let items: Vec<String> = v.iter().map(value_to_json).collect();
+            format!("[{}]", items.join(","))
+        }
     }
 }
 
@@ -166,19 +187,24 @@ impl WebAnnoConfig {
     /// Generates a JSON-LD string to use for @context
     pub fn serialize_context(&self) -> String {
         let mut out = String::new();
+        let extra_context: Vec<String> = self
+            .extra_context
+            .iter()
+            .map(|url| format!("\"{}\"", json_escape(url)))
+            .collect();
         if !self.extra_context.is_empty() {
             if !self.context_namespaces.is_empty() {
                 out += &format!(
                     "[ \"{}\", {}, {{ {} }} ]",
                     CONTEXT_ANNO,
-                    self.extra_context.join(", "),
+                    extra_context.join(", "),
                     self.serialize_context_namespaces(),
                 );
             } else {
                 out += &format!(
                     "[ \"{}\", {} ]",
                     CONTEXT_ANNO,
-                    self.extra_context.join(", ")
+                    extra_context.join(", ")
                 );
             }
         } else if !self.context_namespaces.is_empty() {
@@ -199,8 +225,8 @@ impl WebAnnoConfig {
             out += &format!(
                 "{}\"{}\": \"{}\"",
                 if out.is_empty() { "" } else { ", " },
-                namespace,
-                uri,
+                json_escape(namespace),
+                json_escape(uri),
             );
         }
         out
@@ -221,12 +247,12 @@ impl<'store> ResultItem<'store, Annotation> {
         ann_out += &config.serialize_context();
         ann_out += ",";
         if let Some(iri) = self.iri(&config.default_annotation_iri) {
-            ann_out += &format!("  \"id\": \"{}\",", iri);
+            ann_out += &format!("  \"id\": \"{}\",", json_escape(&iri));
         } else if config.generate_annotation_iri {
             let id = nanoid!();
             ann_out += &format!(
                 " \"id\": \"{}\",",
-                into_iri(&id, &config.default_annotation_iri)
+                json_escape(&into_iri(&id, &config.default_annotation_iri))
             )
         }
         ann_out += " \"type\": \"Annotation\",";
@@ -292,6 +318,10 @@ impl<'store> ResultItem<'store, Annotation> {
             }
         }
 
+        if outputted_to_main {
+            ann_out.push(',');
+        }
+
         if config.auto_generated && !suppress_auto_generated {
             ann_out += &format!(" \"generated\": \"{}\",", Local::now().to_rfc3339());
         }
@@ -306,12 +336,12 @@ impl<'store> ResultItem<'store, Annotation> {
             }
             if !suppress_body_id {
                 if let Some(iri) = self.iri(&config.default_annotation_iri) {
-                    ann_out += &format!(" \"id\": \"{}/body\",", iri);
+                    ann_out += &format!(" \"id\": \"{}/body\",", json_escape(&iri));
                 } else if config.generate_annotation_iri {
                     let id = nanoid!();
                     ann_out += &format!(
                         " \"id\": \"{}\",",
-                        into_iri(&id, &config.default_annotation_iri)
+                        json_escape(&into_iri(&id, &config.default_annotation_iri))
                     )
                 }
             }
@@ -357,23 +387,22 @@ fn output_predicate_datavalue(
     datavalue: &DataValue,
     config: &WebAnnoConfig,
 ) -> String {
-    let value_is_iri = if let DataValue::String(s) = datavalue {
-        is_iri(s)
-    } else {
-        false
+    let value_as_iri = match datavalue {
+        DataValue::String(s) if is_iri(s) => Some(s),
+        _ => None,
     };
-    if value_is_iri {
+    if let Some(iri) = value_as_iri {
         // Any String value that is a valid IRI *SHOULD* be interpreted as such
         // in conversion from/to RDF.
         format!(
             "\"{}\": {{ \"id\": \"{}\" }}",
-            config.uri_to_namespace(predicate),
-            datavalue
+            json_escape(&config.uri_to_namespace(predicate)),
+            json_escape(iri)
         )
     } else {
         format!(
             "\"{}\": {}",
-            config.uri_to_namespace(predicate),
+            json_escape(&config.uri_to_namespace(predicate)),
             &value_to_json(datavalue)
         )
     }
@@ -402,10 +431,10 @@ fn output_selector(
                 }
                 ann_out += &format!(
                     "{{ \"source\": \"{}\", \"selector\": {{ \"type\": \"TextPositionSelector\", \"start\": {}, \"end\": {} }} }}",
-                    into_iri(
+                    json_escape(&into_iri(
                         resource.id().expect("resource must have ID"),
                         &config.default_resource_iri
-                    ),
+                    )),
                     textselection.begin(),
                     textselection.end(),
                 );
@@ -425,7 +454,7 @@ fn output_selector(
                     if !ann_out.is_empty() {
                         ann_out.push(',');
                     }
-                    ann_out += &format!("\"{}\"", &template);
+                    ann_out += &format!("\"{}\"", json_escape(&template));
                     if !nested && !second_pass {
                         ann_out += " ]";
                     }
@@ -438,7 +467,10 @@ fn output_selector(
         Selector::AnnotationSelector(a_handle, None) => {
             let annotation = store.annotation(*a_handle).expect("annotation must exist");
             if let Some(iri) = annotation.iri(&config.default_annotation_iri) {
-                ann_out += &format!("{{ \"id\": \"{}\", \"type\": \"Annotation\" }}", iri);
+                ann_out += &format!(
+                    "{{ \"id\": \"{}\", \"type\": \"Annotation\" }}",
+                    json_escape(&iri)
+                );
             } else {
                 ann_out += "{ \"id\": null }";
                 eprintln!("WARNING: Annotation points to an annotation that has no public ID! Unable to serialize to Web Annotatations");
@@ -448,59 +480,53 @@ fn output_selector(
             let resource = store.resource(*res_handle).expect("resource must exist");
             ann_out += &format!(
                 "{{ \"id\": \"{}\", \"type\": \"Text\" }}",
-                into_iri(
+                json_escape(&into_iri(
                     resource.id().expect("resource must have ID"),
                     &config.default_resource_iri
-                ),
+                )),
             );
         }
         Selector::DataSetSelector(set_handle) => {
             let dataset = store.dataset(*set_handle).expect("resource must exist");
             ann_out += &format!(
                 "{{ \"id\": \"{}\", \"type\": \"Dataset\" }}",
-                into_iri(
+                json_escape(&into_iri(
                     dataset.id().expect("dataset must have ID"),
                     &config.default_resource_iri
-                ),
+                )),
             );
         }
         Selector::CompositeSelector(selectors) => {
             ann_out += "{ \"type\": \"http://www.w3.org/ns/oa#Composite\", \"items\": [";
-            for (i, selector) in selectors.iter().enumerate() {
-                ann_out += &format!(
-                    "{}",
-                    &output_selector(selector, store, config, true, need_second_pass, second_pass)
-                );
-                if i != selectors.len() - 1 {
-                    ann_out += ",";
-                }
-            }
+            ann_out += &output_subselectors(
+                selectors.iter(),
+                store,
+                config,
+                need_second_pass,
+                second_pass,
+            );
             ann_out += " ]}";
         }
         Selector::MultiSelector(selectors) => {
             ann_out += "{ \"type\": \"http://www.w3.org/ns/oa#Independents\", \"items\": [";
-            for (i, selector) in selectors.iter().enumerate() {
-                ann_out += &format!(
-                    "{}",
-                    &output_selector(selector, store, config, true, need_second_pass, second_pass)
-                );
-                if i != selectors.len() - 1 {
-                    ann_out += ",";
-                }
-            }
+            ann_out += &output_subselectors(
+                selectors.iter(),
+                store,
+                config,
+                need_second_pass,
+                second_pass,
+            );
             ann_out += " ]}";
         }
         Selector::DirectionalSelector(selectors) => {
             ann_out += "{ \"type\": \"http://www.w3.org/ns/oa#List\", \"items\": [";
-            for (i, selector) in selectors.iter().enumerate() {
-                ann_out += &format!(
-                    "{}",
-                    &output_selector(selector, store, config, true, need_second_pass, second_pass)
-                );
-                if i != selectors.len() - 1 {
-                    ann_out += ",";
-                }
-            }
+            ann_out += &output_subselectors(
+                selectors.iter(),
+                store,
+                config,
+                need_second_pass,
+                second_pass,
+            );
             ann_out += " ]}";
         }
         Selector::DataKeySelector(..) | Selector::AnnotationDataSelector(..) => {
@@ -513,22 +539,13 @@ fn output_selector(
         Selector::RangedTextSelector { .. } | Selector::RangedAnnotationSelector { .. } => {
             if nested {
                 let subselectors: Vec<_> = selector.iter(store, false).collect();
-                for (i, subselector) in subselectors.iter().enumerate() {
-                    ann_out += &format!(
-                        "{}",
-                        &output_selector(
-                            &subselector,
-                            store,
-                            config,
-                            true,
-                            need_second_pass,
-                            second_pass
-                        )
-                    );
-                    if i != subselectors.len() - 1 {
-                        ann_out += ",";
-                    }
-                }
+                ann_out += &output_subselectors(
+                    subselectors.iter().map(|subselector| subselector.as_ref()),
+                    store,
+                    config,
+                    need_second_pass,
+                    second_pass,
+                );
             } else {
                 unreachable!(
                 "Internal Ranged selectors can not be serialized directly, they can be serialized only when under a complex selector",
@@ -537,4 +554,26 @@ fn output_selector(
         }
     }
     ann_out
+}
+
+/// Serialises all subselectors as a comma-separated sequence of JSON values,
+/// subselectors that have no Web Annotation counterpart are skipped.
+fn output_subselectors<'a>(
+    selectors: impl Iterator<Item = &'a Selector>,
+    store: &AnnotationStore,
+    config: &WebAnnoConfig,
+    need_second_pass: &mut bool,
+    second_pass: bool,
+) -> String {
+    let mut out = String::new();
+    for selector in selectors {
+        let item = output_selector(selector, store, config, true, need_second_pass, second_pass);
+        if !item.is_empty() {
+            if !out.is_empty() {
+                out.push(',');
+            }
+            out += &item;
+        }
+    }
+    out
 }
